@@ -269,6 +269,17 @@ def _safe_impl(chk, case):
         return {"harness_exception": type(e).__name__ + ": " + str(e)[:200], "tb": traceback.format_exc()[-600:]}
 
 
+def judge(chk, case, obs):
+    """the property oracle, fail-closed: an exception the implementation runner did not expect is a failure of the case (on the
+    unchanged tree that would be a bug of the harness, and must be seen), and so is an oracle that cannot judge"""
+    if isinstance(obs, dict) and "harness_exception" in obs:
+        return "the call raised an exception the runner does not expect: %s" % obs["harness_exception"]
+    try:
+        return chk.oracle(case, obs)
+    except Exception as e:
+        return "the oracle could not judge the observation (%s: %s)" % (type(e).__name__, str(e)[:120])
+
+
 def write_replay(pid, kind, case, extra):
     d = os.path.join(lib.SCRATCH, "replay")
     os.makedirs(d, exist_ok=True)
@@ -354,7 +365,7 @@ def run_check(chk, tier, seed, replay=None, max_report=5):
             seen.add(h)
             if chk.nontrivial(c, iobs[i]):
                 distinct_nt += 1
-        why = chk.oracle(c, iobs[i])
+        why = judge(chk, c, iobs[i])
         if why:
             oracle_fail.append((i, why))
         if chk.entry and model_error is None:
@@ -403,7 +414,7 @@ def run_check(chk, tier, seed, replay=None, max_report=5):
             for cand in chk.shrink(cur):
                 steps += 1
                 o = _safe_impl(chk, cand)
-                w = chk.oracle(cand, o)
+                w = judge(chk, cand, o)
                 if w and chk.signature(cand, w) == chk.signature(cur, cur_why):
                     cur, cur_why, cur_obs = cand, w, o
                     improved = True
@@ -435,7 +446,7 @@ def run_check(chk, tier, seed, replay=None, max_report=5):
             for cand in chk.neighbours(cases[i], rng):
                 searched += 1
                 o = _safe_impl(chk, cand)
-                w = chk.oracle(cand, o)
+                w = judge(chk, cand, o)
                 if w:
                     report_failure(cand, w, o)
                     break
